@@ -23,9 +23,9 @@ HARD_TIMEOUT = {'quick': 900, 'thorough': 3000}
 def cfg(tier):
     if tier == 'quick':
         return {'orders': (3, 5, 7), 'dims': (1, 2), 'Ns': (1, 2, 3), 'flags': list(range(256)), 'gen': [(5, 2), (7, 1), (3, 2)], 'genNs': (1, 2, 3), 'genflags': list(range(0, 256, 5)),
-                'histlen': 2, 'hist': [(5, 2)]}
+                'histlen': 3, 'hist': [(5, 2)]}
     return {'orders': (3, 5, 7), 'dims': (1, 2, 3), 'Ns': (1, 2, 3, 4, 5, 6), 'flags': list(range(256)), 'gen': [(o, d) for o in (3, 5, 7) for d in (1, 2, 3)], 'genNs': (1, 2, 3, 4), 'genflags': list(range(256)),
-            'histlen': 3, 'hist': [(5, 2), (3, 1), (7, 2)]}
+            'histlen': 4, 'hist': [(5, 2), (3, 1), (7, 2)]}
 
 
 def bounds(tier):
